@@ -23,7 +23,7 @@ EXPLANATION = (
     "and nothing else. C05.e (twin evaluations of one curve): the daily root expansion is the difference of the potential-depth curve "
     "at today's and yesterday's development time; the two evaluations receive the same sequence of definitions (after renaming the "
     "time variable) - in particular the restrictive-layer correction is applied to both or to neither - otherwise the difference is "
-    "negative and the roots shrink. C05.f: the stress multiplier of the harvest index reaches the adjusted index only through the limit 1 + dHI0/100 (must-pass-through; the cap on the product of the pre- and post-anthesis factors, not on one factor). C05.g: in the restrictive-layer correction the penetrability fraction multiplies potential depth (potential -> actual) and divides the crossed thickness (actual -> potential). NOT decided: canopy envelope, harvest-index monotonicity, root depth <= Zmax, degree-day range "
+    "negative and the roots shrink. C05.f: the stress multiplier of the harvest index reaches the adjusted index only through the limit 1 + dHI0/100 (must-pass-through; the cap on the product of the pre- and post-anthesis factors, not on one factor). C05.g: in the restrictive-layer correction the penetrability fraction multiplies potential depth (potential -> actual) and divides the crossed thickness (actual -> potential). C05.h: = C04.d (the submergence factor of ponded-water transpiration stays >= 0: a negative daily transpiration makes biomass decrease). NOT decided: canopy envelope, harvest-index monotonicity, root depth <= Zmax, degree-day range "
     "(numeric trajectories).")
 
 ZERO_COLS = ["dap", "gdd_cum", "z_root", "canopy_cover", "canopy_cover_ns", "biomass", "biomass_ns",
@@ -61,6 +61,10 @@ def run(chk, prog, tier):
     rule_f(chk, prog)
     rule_g(chk, prog)
     chk.assume("A-1")
+    # C05.h: biomass never decreases within a season only if the daily transpiration it is built from is >= 0: the submergence factor that
+    # scales transpiration from ponded water is evaluated only where day_submerged <= LagAer (= C04.d)
+    from .c04 import rule_d as submergence_factor
+    submergence_factor(chk, prog, rule="C05.h")
     chk.exhaustive = True
 
 
